@@ -80,7 +80,7 @@ type archetypeData struct {
 }
 
 // Init initializes an archetype
-func (a *archetype) Init(node *archNode, data *archetypeData, index int32, forStorage bool, layouts uint8, relation Entity) {
+func (a *archetype) Init(node *archNode, data *archetypeData, index int32, forStorage bool, layouts int, relation Entity) {
 	if !node.IsActive {
 		node.IsActive = true
 	}
@@ -246,8 +246,8 @@ func (a *archetype) Activate(target Entity, index int32) {
 	a.RelationTarget = target
 }
 
-func (a *archetype) ExtendLayouts(count uint8) {
-	if len(a.layouts) >= int(count) {
+func (a *archetype) ExtendLayouts(count int) {
+	if len(a.layouts) >= count {
 		return
 	}
 	temp := a.layouts
